@@ -41,7 +41,7 @@ Print Assumptions C05_escape_sound.
     [symbols_declared] asks of every symbol. *)
 Theorem C05_name_ok_intro :
   forall n : string, name_chars_ok n = true -> is_reserved n = false -> is_theory_name n = false ->
-    name_ok n = true.
+    is_solver_reserved n = false -> name_ok n = true.
 Proof. exact name_ok_intro. Qed.
 Print Assumptions C05_name_ok_intro.
 
